@@ -69,6 +69,8 @@ let enumerate () =
   let oc = open_out Sys.argv.(3) in
   let caps : (int * (n * n) list) list ref = ref [] in
   let capdb (k : n) : (n * n) list = try List.assoc (int_of_n k) !caps with Not_found -> [] in
+  let bads : int list ref = ref [] in
+  let bad (k : n) : bool = List.mem (int_of_n k) !bads in
   let api = ref [] and limit = ref 1000 and name = ref "" in
   let flush_case () =
     if !name <> "" then begin
@@ -87,9 +89,9 @@ let enumerate () =
           end
           else begin
             (match rest with
-            | a :: tl -> go (if enabled st a then step_impl capdb st a else st) tl ("a" :: path)
+            | a :: tl -> go (if enabled st a then step_impl capdb bad st a else st) tl ("a" :: path)
             | [] -> ());
-            List.iter (fun (tok, a) -> go (step_impl capdb st a) rest (tok :: path)) jobs
+            List.iter (fun (tok, a) -> go (step_impl capdb bad st a) rest (tok :: path)) jobs
           end
         end
       in
@@ -102,7 +104,8 @@ let enumerate () =
        let line = String.trim (input_line ic) in
        let tok = List.filter (fun x -> x <> "") (String.split_on_char ' ' line) in
        match tok with
-       | "H" :: nm -> flush_case (); name := String.concat " " nm; caps := []; api := []
+       | "H" :: nm -> flush_case (); name := String.concat " " nm; caps := []; api := []; bads := []
+       | [ "bad"; k ] -> bads := int_of_string k :: !bads
        | "cap" :: k :: pk ->
            let ps = List.map (fun s -> match String.split_on_char ':' s with
              | [ f; b ] -> (n_of_int (int_of_string f), n_of_int (int_of_string b)) | _ -> failwith "bad packet") pk in
@@ -122,7 +125,9 @@ let () =
   let legacy = Array.length Sys.argv > 3 && Sys.argv.(3) = "legacy" in
   let caps : (int * (n * n) list) list ref = ref [] in
   let capdb (k : n) : (n * n) list = try List.assoc (int_of_n k) !caps with Not_found -> [] in
-  let step st a = if legacy then step_legacy capdb st a else step_impl capdb st a in
+  let bads : int list ref = ref [] in
+  let bad (k : n) : bool = List.mem (int_of_n k) !bads in
+  let step st a = if legacy then step_legacy capdb bad st a else step_impl capdb bad st a in
   let st = ref init in
   let stuck = ref false in
   (try
@@ -134,6 +139,7 @@ let () =
          | "H" :: name ->
              st := init;
              caps := [];
+             bads := [];
              stuck := false;
              output_string oc ("H " ^ String.concat " " name ^ "\n")
          | "cap" :: k :: pk ->
@@ -146,6 +152,7 @@ let () =
                  pk
              in
              caps := (int_of_string k, ps) :: !caps
+         | [ "bad"; k ] -> bads := int_of_string k :: !bads
          | op :: args ->
              if !stuck then output_string oc "STUCK earlier\n"
              else begin
